@@ -105,6 +105,11 @@ void *sym_fn(const char *name)
     return p;
 }
 
+#ifdef SYM_DRAWS
+/* the raw generator output is an input of the path: every call takes the next recorded draw */
+uint64_t cmb_random_sfc64(void) { return next_val('i', "draw"); }
+#endif
+
 int main(void)
 {
     open_in();
